@@ -237,7 +237,7 @@ func (c *c20) Run(ctx *RunCtx) *RunResult {
 	// now and then one directory is large: more entries than any single directory read returns at once
 	if t.Draw(40) == 1 {
 		big := &c20node{name: "big", dir: true}
-		n := t.Range(120, 300)
+		n := t.Range(120, 700)
 		for i := 0; i < n; i++ {
 			big.kids = append(big.kids, &c20node{name: fmt.Sprintf("f%d.%s", i, []string{"txt", "a", "b.txt"}[i%3])})
 		}
